@@ -219,6 +219,7 @@ thread_local! {
 }
 
 pub fn with_net<R>(f: impl FnOnce(&mut Net) -> R) -> R {
+    let _sim = crate::alloc_count::exempt();
     NET.with(|n| f(n.borrow_mut().as_mut().expect("net not initialised")))
 }
 
@@ -485,7 +486,8 @@ pub fn inject(dst: usize, port: Port, bytes: Vec<u8>, delay_ns: u64) {
         net.bump("inject");
         let ordinal = net.next_ordinal;
         net.next_ordinal += 1;
-        net.wire.push(WireRec { ordinal, t_send: now, t_arr: Some(now + delay_ns), src: None, dst, port, class, parsed, len: bytes.len(), dup: false, delivered_step: None, bytes: None });
+        let kept = if net.plan.capture { Some(Rc::new(bytes.clone())) } else { None };
+        net.wire.push(WireRec { ordinal, t_send: now, t_arr: Some(now + delay_ns), src: None, dst, port, class, parsed, len: bytes.len(), dup: false, delivered_step: None, bytes: kept });
         let id = net.next_arrival;
         net.next_arrival += 1;
         let rec = net.wire.len() - 1;
@@ -556,6 +558,7 @@ pub fn arrival(id: u64) {
                 c.fp.u64(id);
                 c.trace(|| format!("net arrival {} ({} bytes)", id, bytes.len()));
             });
+            with_core(|c| c.bytes_since_worker_poll += bytes.len() as u64);
             sock.q.borrow_mut().push_back(bytes);
             let w = sock.waker.borrow_mut().take();
             if let Some(w) = w {
@@ -618,6 +621,7 @@ pub struct SimWriter {
 }
 impl WriteMessage for SimWriter {
     fn write_message(&self, buf: &[u8], locators: &[Locator]) {
+        let _sim = crate::alloc_count::exempt();
         send(self.node, buf, locators);
     }
 }
